@@ -708,8 +708,22 @@ def run_idle(rng, drv, profile, tid):
         exp = drv.to_ticks(drv.m["tap"].CHANNEL_EXPIRATION_TIME)
         per = drv.to_ticks(drv.period_secs)
         to_sweep((exp // per) + rng.choice([2, 3]))
-        for (c, s) in order[:2]:
-            cmd(c, type="add", phase="p5", body=rng.choice(["b1", "b2"]))
+        if rng.random() < 0.5:
+            for (c, s) in order[:2]:
+                cmd(c, type="add", phase="p5", body=rng.choice(["b1", "b2"]))
+        else:
+            # nobody says anything more: they just go, one sweep period apart at most, and the channel
+            # they kept alive by being there must outlive them by the usual time
+            for (c, s) in order:
+                if up(c):
+                    do(ev0("Drop", c=c))
+            to_sweep(1)
+            if rng.random() < 0.5:
+                bind(slots[0], app, cl[0][1])
+                if via_np:
+                    cmd(slots[0], type="claim", nameplate=name)
+                else:
+                    cmd(slots[0], type="open", mailbox=mbox)
     # --- leave
     cur = told if via_np else mbox
     for (c, s) in order:
